@@ -49,7 +49,7 @@ func H_C18_totalCompare(la int, lb int) {
 
 //verif:harness C18 quick n=1..6
 //verif:harness C18 quick n=1023..1025
-//verif:harness C18 quick n=10240..10240
+//verif:harness C18 quick n=2048..2048
 func H_C18_limitSem(n int) {
 	var in []byte
 	if n <= 6 {
